@@ -20,6 +20,7 @@ RULE = ('instruction instances of the integer core produced by GNU as from a tab
         'mem,reg / mem,imm; high byte registers; esp/ebp bases; SIB) x states (registers and flags from the boundary set {0,1,2^k-1,2^k,sign bit,all ones} and random; random memory; %d states per '
         'instance quick, %d thorough). A case = (instance, state); non-trivial = the CPU executed the step without fault and at least one compared location is architecturally defined.')
 RULE += ' Round 6: 16-bit addressing runs on the CPU as well (the tracee maps low pages and the last page of the first 64K): ALU, mov, shift, movzx, xchg, setcc/cmovcc, push/pop/call/jmp through [bx+si]-style operands, xlat and the five string instructions with si/di, with garbage in the upper register halves, wrapping sums and pointers stepping across 0xffff; meaning-free address-size prefixes on call/push/pop/ret/pushf/leave/jmp/jecxz/loop.'
+RULE += ' Round 7: 16-bit code-segment twins: every register-only row is also decoded with attrib opmode/admode u16 from the bytes that mean the same instruction there (66 removed or added); its lifted semantics must agree, on generated states, with the 32-bit decoding that the CPU comparison covers.'
 ASSUMPTIONS = ['the host CPU (single-stepped through Linux ptrace) is "an x86 processor"; faulting steps are excluded', 'the table of architecturally undefined results below is transcribed from the SDM',
                'vf/irsem.py gives the standard bit-vector meaning of the IR; memory is flat (segment annotations ignored)',
                'direct branches are compared by taken/not-taken (the lifter leaves the raw displacement as target; the architectural target is C17)']
